@@ -57,6 +57,9 @@ type FSpec struct {
 	Segments []FSegment
 	Defaults int // 0: every value explicit in trun; 1: duration+flags via tfhd defaults when uniform in the traf; 2: via trex defaults (uniform over the file)
 	TfdtV0   bool
+	// BaseOffset: tfhd carries base_data_offset (absolute position of the traf's first run) instead of
+	// default-base-is-moof, and a traf with a single trun has no data_offset in the trun
+	BaseOffset bool
 }
 
 // FTruth is the ground truth of one sample.
@@ -182,6 +185,10 @@ func BuildFrag(spec *FSpec) *FFile {
 				}
 			}
 			// moof is built twice: first to learn its size
+			moofAbs := len(ff.Init) + len(seg)
+			for _, ps := range ff.Segs {
+				moofAbs += len(ps)
+			}
 			build := func(moofSize int) []byte {
 				parts := [][]byte{tableref.FullBox("mfhd", 0, 0, be32(sn))}
 				for _, t := range spec.Tracks {
@@ -229,6 +236,12 @@ func BuildFrag(spec *FSpec) *FFile {
 							flagsInTrun = false
 						}
 					}
+					baseAbs := uint64(0)
+					if spec.BaseOffset {
+						tfFlags = tfFlags&^0x020000 | 0x1
+						baseAbs = uint64(moofAbs + moofSize + 8 + truns[0].dataPos)
+						tfBody = append(be64(baseAbs), tfBody...)
+					}
 					traf := [][]byte{tableref.FullBox("tfhd", 0, tfFlags, be32(t.ID), tfBody)}
 					// base decode time of the first sample of this traf
 					firstDT := uint64(0)
@@ -252,6 +265,14 @@ func BuildFrag(spec *FSpec) *FFile {
 							fl |= 0x400
 						}
 						body := append(be32(uint32(len(ti.run.Samples))), be32(uint32(moofSize+8+ti.dataPos))...)
+						if spec.BaseOffset {
+							if len(truns) == 1 {
+								fl &^= 0x1
+								body = be32(uint32(len(ti.run.Samples)))
+							} else {
+								body = append(be32(uint32(len(ti.run.Samples))), be32(uint32(ti.dataPos-truns[0].dataPos))...)
+							}
+						}
 						for _, s := range ti.run.Samples {
 							if durInTrun {
 								body = append(body, be32(s.Dur)...)
